@@ -2,7 +2,7 @@
 # tools/selftest-benign.sh [ids...]   Quietness self-test: every patch in /verif/benign is a behaviour-preserving refactor of the
 # library (other chunk sizes, buffering, error texts and types, I/O call shapes, load order, lookup loops ...) under which all
 # 20 properties still hold. Each is applied to a scratch COPY of the repository (outside /repo and /verif), the 141 unit tests
-# must pass on it, and then EVERY property's quick check must exit 0 against the copy. Table -> evidence/selftest-benign.json.
+# must pass on it, and then EVERY property's quick check must exit 0 against the copy. Table -> "evidence/selftest-benign${BENIGN_TAG:-}.json".
 set -u
 cd "$(dirname "$(readlink -f "$0")")/.." || exit 2
 IDS="$*"
@@ -28,6 +28,6 @@ for ID in $IDS; do
 	BUILD=$(make -s REPO="$SCR" VARIANT=asan print-build); rm -rf "$BUILD" "$SCR" "$EVD"
 done
 mkdir -p evidence
-jq -s --argjson ok "$([ $BAD = 0 ] && echo true || echo false)" '{tool: "selftest-benign", rows: ., ok: $ok}' "$ROWFILE" > evidence/selftest-benign.json
+jq -s --argjson ok "$([ $BAD = 0 ] && echo true || echo false)" '{tool: "selftest-benign", rows: ., ok: $ok}' "$ROWFILE" > "evidence/selftest-benign${BENIGN_TAG:-}.json"
 rm -f "$ROWFILE"
 exit $BAD
